@@ -78,6 +78,9 @@ const (
 	finishReceived
 	resultsReady
 	releaseResultCapsFlag
+	// returnSending is set while the Return message is being written
+	// with c.mu released.
+	returnSending
 )
 
 // errorAnswer returns a placeholder answer with an error result already set.
@@ -218,6 +221,13 @@ func (ans *answer) sendReturn(cstates []capnp.ClientState) (releaseList, error) 
 	case <-ans.c.bgctx.Done():
 	default:
 		fin := ans.flags&finishReceived != 0
+		// The peer may reuse the answer ID as soon as it has sent the
+		// Finish and read the Return, which can be before c.mu is
+		// acquired again below.
+		ans.flags |= returnSending
+		if fin {
+			delete(ans.c.answers, ans.id)
+		}
 		ans.c.mu.Unlock()
 		if err := ans.sendMsg(); err != nil {
 			ans.c.reportf("send return: %v", err)
@@ -256,6 +266,13 @@ func (ans *answer) sendException(e error) releaseList {
 	default:
 		// Send exception.
 		fin := ans.flags&finishReceived != 0
+		// The peer may reuse the answer ID as soon as it has sent the
+		// Finish and read the Return, which can be before c.mu is
+		// acquired again below.
+		ans.flags |= returnSending
+		if fin {
+			delete(ans.c.answers, ans.id)
+		}
 		ans.c.mu.Unlock()
 		if exc, err := ans.ret.NewException(); err != nil {
 			ans.c.reportf("send exception: %v", err)
@@ -294,7 +311,9 @@ func (ans *answer) sendException(e error) releaseList {
 //
 // shutdown has its own strategy for cleaning up an answer.
 func (ans *answer) destroy() (releaseList, error) {
-	delete(ans.c.answers, ans.id)
+	if ans.c.answers[ans.id] == ans {
+		delete(ans.c.answers, ans.id)
+	}
 	rl := releaseList(ans.resultCapTable)
 	if ans.flags&releaseResultCapsFlag == 0 || len(ans.exportRefs) == 0 {
 		return rl, nil
